@@ -79,6 +79,9 @@ type Signed struct {
 	Marks         []Mark // regions of interest inside Body
 	Mode          string
 	SignedHeaders string
+	// NoCL: the request goes out with neither a Content-Length header nor a body (and no Transfer-Encoding):
+	// legal HTTP/1.1 for a request without a body, whatever the method
+	NoCL bool
 }
 
 // Mark labels a region of the wire body.
@@ -494,9 +497,16 @@ func (s *Signed) WireCL(cl int) ([]byte, int) {
 	hasCL := false
 	for _, kv := range s.Headers {
 		if strings.EqualFold(kv.K, "Content-Length") {
+			if s.NoCL {
+				continue
+			}
 			hasCL = true
 		}
 		fmt.Fprintf(&b, "%s: %s\r\n", kv.K, kv.V)
+	}
+	if s.NoCL {
+		b.WriteString("\r\n")
+		return b.Bytes(), b.Len()
 	}
 	if !hasCL && (cl > 0 || s.Method == "PUT" || s.Method == "POST" || s.Method == "PATCH") {
 		fmt.Fprintf(&b, "Content-Length: %d\r\n", cl)
